@@ -3,7 +3,8 @@
    convert_int / convert_bool / verilog_tail / val_to_signed_integer / twos_comp_repr /
    rev_twos_comp_repr / const_postchecks are Gen/Conv.v, regenerated from pyrtl's source on every
    run; infer / verilog_parse / formatted_* / bitpattern_* are the hand models of Conv/Str.v. *)
-From PyRTL Require Import Base.PyZ Conv.ConvBase Gen.Conv Conv.Spec Conv.Str Conv.ConvProofs Conv.StrProofs.
+From PyRTL Require Import Base.PyZ Conv.ConvBase Gen.Conv Conv.Spec Conv.Str Conv.ConvProofs Conv.StrProofs
+  Conv.FmtProofs Conv.PatProofs.
 
 (* --- infer_val_and_bitwidth on integers: accepts exactly the representable triples --- *)
 Theorem C16_int_accepts_iff_representable : forall v w signed,
@@ -141,6 +142,60 @@ Theorem C16_rev_then_twos : forall r w v, 1 <= w -> 0 <= r ->
 Proof. exact rev_then_twos. Qed.
 Print Assumptions C16_rev_then_twos.
 
+(* --- val_to_formatted_str / formatted_str_to_val are mutual inverses --- *)
+(* formats s, u, x, b (type characters 115, 117, 120, 98), every width and in-range value *)
+Theorem C16_formatted_roundtrip : forall v f ty w es,
+  format_parse f = Some (ty, w) -> fmt_type_ok ty -> 1 <= w -> 0 <= v < 2 ^ w ->
+  exists s, val_to_formatted_str v f es = Ok s /\ formatted_str_to_val s f es = Ok v.
+Proof. exact formatted_roundtrip. Qed.
+Print Assumptions C16_formatted_roundtrip.
+
+(* the converse on the canonical texts *)
+Theorem C16_formatted_roundtrip_text : forall v f ty w es s,
+  format_parse f = Some (ty, w) -> fmt_type_ok ty -> 1 <= w -> 0 <= v < 2 ^ w ->
+  val_to_formatted_str v f es = Ok s ->
+  exists v', formatted_str_to_val s f es = Ok v' /\ val_to_formatted_str v' f es = Ok s.
+Proof. exact formatted_roundtrip_text. Qed.
+Print Assumptions C16_formatted_roundtrip_text.
+
+(* enum format (type character 101): any value the enum names comes back *)
+Theorem C16_formatted_roundtrip_enum : forall v f w es e n,
+  format_parse f = Some (101, w) -> enum_of f es = Ok e -> enum_names_distinct e ->
+  val_to_formatted_str v f es = Ok n -> formatted_str_to_val n f es = Ok v.
+Proof. exact formatted_roundtrip_enum. Qed.
+Print Assumptions C16_formatted_roundtrip_enum.
+
+Theorem C16_formatted_unknown_type_rejected : forall v d f ty w es,
+  format_parse f = Some (ty, w) -> ~ fmt_type_ok ty -> ty <> 101 ->
+  is_ok (val_to_formatted_str v f es) = false /\ is_ok (formatted_str_to_val d f es) = false.
+Proof. exact formatted_unknown_type. Qed.
+Print Assumptions C16_formatted_unknown_type_rejected.
+
+(* the digit-string model itself: int(str(n)) = n for every integer, int(digits(n, radix), radix) = n *)
+Theorem C16_int_of_str_roundtrip : forall n, py_int 10 (py_str n) = Some n.
+Proof. exact py_int_py_str. Qed.
+Print Assumptions C16_int_of_str_roundtrip.
+
+Theorem C16_int_of_digits_roundtrip : forall base n, 2 <= base <= 36 -> 0 <= n ->
+  py_int base (nat_str base n) = Some n.
+Proof. exact py_int_nat_str. Qed.
+Print Assumptions C16_int_of_digits_roundtrip.
+
+(* --- bitpattern_to_val produces a value that match_bitpattern matches and decodes back --- *)
+(* every pattern (any length, any letters), every field tuple the helper accepts; negative fields come
+   back reduced modulo 2^(number of positions of the letter) *)
+Theorem C16_bitpattern_roundtrip : forall p fields v,
+  bitpattern_to_val p fields = Ok v -> nospace p = p ->
+  match_bitpattern v p = (true, decoded_fields p fields).
+Proof. exact bitpattern_roundtrip. Qed.
+Print Assumptions C16_bitpattern_roundtrip.
+
+Theorem C16_bitpattern_roundtrip_nonneg : forall p fields v,
+  bitpattern_to_val p fields = Ok v -> nospace p = p -> Forall (fun f => 0 <= f) fields ->
+  match_bitpattern v p = (true, fields).
+Proof. exact bitpattern_roundtrip_nonneg. Qed.
+Print Assumptions C16_bitpattern_roundtrip_nonneg.
+
 (* --- non-vacuity --- *)
 Example C16_example_infer :
   infer (RInt (-3)) None true = Ok (5, 3) /\ infer (RInt (-8)) (Some 4) false = Ok (8, 4)
@@ -154,4 +209,19 @@ Proof. vm_compute. repeat split; reflexivity. Qed.
 
 Example C16_example_twos :
   twos_comp_repr (-3) 3 = Ok 5 /\ rev_twos_comp_repr 5 3 = Ok (-3) /\ val_to_signed_integer 5 3 = Ok (-3).
+Proof. vm_compute. repeat split; reflexivity. Qed.
+
+(* "s3" parses as (115, 3); 5 prints as "-3" and reads back as 5; "e3/C" with enum C = {A = 5} *)
+Example C16_example_format :
+  format_parse [115; 51] = Some (115, 3) /\ fmt_type_ok 115 /\
+  val_to_formatted_str 5 [115; 51] [] = Ok [45; 51] /\ formatted_str_to_val [45; 51] [115; 51] [] = Ok 5 /\
+  val_to_formatted_str 5 [101; 51; 47; 67] [([67], [([65], 5)])] = Ok [65] /\
+  enum_names_distinct [([65], 5)].
+Proof. vm_compute. repeat split; try reflexivity. left. reflexivity. Qed.
+
+(* bitpattern "ba0ab" with b = 3, a = 1 is 0b10011 = 19; matching 19 decodes (b, a) = (3, 1) *)
+Example C16_example_bitpattern :
+  bitpattern_to_val [98; 97; 48; 97; 98] [3; 1] = Ok 19 /\ nospace [98; 97; 48; 97; 98] = [98; 97; 48; 97; 98]
+  /\ match_bitpattern 19 [98; 97; 48; 97; 98] = (true, [3; 1])
+  /\ match_bitpattern 23 [98; 97; 48; 97; 98] = (false, [3; 1]).
 Proof. vm_compute. repeat split; reflexivity. Qed.
